@@ -73,3 +73,5 @@ def install(world):
     reg.externals['time.monotonic'] = Builtin('ext:time.monotonic')
     reg.externals['time.time'] = Builtin('ext:time.time')
     reg.externals['math.ceil'] = Builtin('ext:math.ceil')
+    for k, v in dict(CRIT=50, ERRO=40, WARN=30, INFO=20, DEBG=10, TRAC=5, BLAT=3).items():
+        reg.externals[f'supervisor.loggers.LevelsByName.{k}'] = v
